@@ -17,8 +17,6 @@ instance (s : State) (b k : Bytes) : Decidable (HeadOk s b k) := by
   unfold HeadOk; decide_pred
 instance (s : State) (b k : Bytes) : Decidable (DeleteOk s b k) := by
   unfold DeleteOk; decide_pred
-instance (s : State) (b : Bytes) : Decidable (DeleteBucketOk s b) := by
-  unfold DeleteBucketOk; decide_pred
 instance (s : State) (sb sk db dk : Bytes) : Decidable (CopyOk s sb sk db dk) := by
   unfold CopyOk; decide_pred
 instance (s : State) (b : Bytes) (p d : Option Bytes) (m : Option Int) : Decidable (ListOk s b p d m) := by
@@ -47,7 +45,7 @@ instance (s : State) (b : Bytes) (keys : List Bytes) : Decidable (DeleteObjectsO
     (`upload_part_copy` with a malformed range; error answers of `delete_objects`). -/
 def Good (s : State) : Op → Prop
   | .createBucket b => NameOk b
-  | .deleteBucket b => DeleteBucketOk s b
+  | .deleteBucket b => NameOk b
   | .headBucket b => NameOk b
   | .getBucketLocation b => NameOk b
   | .listBuckets => True
